@@ -35,6 +35,15 @@ def do_values(lo, hi, st):
     return list(range(lo, hi + 1, st)) if st > 0 else list(range(lo, hi - 1, st))
 
 
+def mentions(e, names):
+    """Does the expression reference one of the variables?"""
+    if not isinstance(e, dict):
+        return False
+    if e.get('k') in ('var', 'arr') and e.get('name') in names:
+        return True
+    return any(mentions(c, names) for c in e.get('c', [])) or any(mentions(e.get(x), names) for x in ('lo', 'hi', 'st'))
+
+
 def has_pragma(prog, word):
     return any(s['s'] == 'raw' and word in s['text'] for u in prog['units'] for s in F._flat(u['body']))
 
@@ -104,6 +113,11 @@ class LoopGen(F.Gen):
         out = super().stmt(d)
         if out and out[0]['s'] == 'do' and self.rng.random() < 0.5:
             out = self.pragma_line(toplevel) + out
+        if out and out[0]['s'] == 'print' and self.active_loops and not self.family.endswith('print'):
+            # PRINT is an opaque text node for Loki: DO variables inside it are a class of their own
+            # (family unroll-print); elsewhere PRINT items never mention a DO variable
+            if any(mentions(it, self.active_loops) for it in out[0]['items']):
+                out[0]['items'] = [op('sum', V(self.rng.choice(self.int_scalars_noarr)), N(self.rng.randint(0, 3)))]
         return out
 
 
@@ -112,6 +126,7 @@ def gen_general(rng, family, quickness=1):
     feats = {'unroll': ('call', 'twod', 'select'),
              'unroll-exitcycle': ('exitcycle', 'twod'),
              'unroll-loopvar': ('twod',),
+             'unroll-print': ('twod',),
              'split': ('call', 'twod', 'select', 'while')}[family]
     pragma = 'driver-loop' if family == 'split' else 'loop-unroll'
     for _ in range(50):
@@ -482,7 +497,7 @@ def gen_nest(rng, family):
     return prog, g.inputs(prog, 3)
 
 
-C31_GENERAL = ('unroll', 'unroll-exitcycle', 'unroll-loopvar', 'split')
+C31_GENERAL = ('unroll', 'unroll-exitcycle', 'unroll-loopvar', 'unroll-print', 'split')
 C31_NEST = ('fusion', 'fusion-mismatch', 'fusion-collapse', 'fission', 'fission-promote',
             'interchange', 'interchange-project', 'block')
 
